@@ -108,6 +108,7 @@ public:
 #if !(FASTOR_NO_ALIAS)
         if (_does_alias) {
             _does_alias = false;
+            FASTOR_VERIF_ROUTE("view.alias_copy.tensor_fixed_views_1d");
             // Evaluate this into a temporary
             auto tmp_this_tensor = get_tensor();
             auto tmp = TensorFixedViewExpr1D<Tensor<T,N>,fseq<F0,L0,S0>,1>(tmp_this_tensor);
@@ -168,6 +169,7 @@ public:
 #if !(FASTOR_NO_ALIAS)
         if (_does_alias) {
             _does_alias = false;
+            FASTOR_VERIF_ROUTE("view.alias_copy.tensor_fixed_views_1d");
             // Evaluate this into a temporary
             auto tmp_this_tensor = get_tensor();
             auto tmp = TensorFixedViewExpr1D<Tensor<T,N>,fseq<F0,L0,S0>,1>(tmp_this_tensor);
@@ -229,6 +231,7 @@ public:
 #if !(FASTOR_NO_ALIAS)
         if (_does_alias) {
             _does_alias = false;
+            FASTOR_VERIF_ROUTE("view.alias_copy.tensor_fixed_views_1d");
             // Evaluate this into a temporary
             auto tmp_this_tensor = get_tensor();
             auto tmp = TensorFixedViewExpr1D<Tensor<T,N>,fseq<F0,L0,S0>,1>(tmp_this_tensor);
@@ -284,6 +287,7 @@ public:
 #if !(FASTOR_NO_ALIAS)
         if (_does_alias) {
             _does_alias = false;
+            FASTOR_VERIF_ROUTE("view.alias_copy.tensor_fixed_views_1d");
             // Evaluate this into a temporary
             auto tmp_this_tensor = get_tensor();
             auto tmp = TensorFixedViewExpr1D<Tensor<T,N>,fseq<F0,L0,S0>,1>(tmp_this_tensor);
@@ -339,6 +343,7 @@ public:
 #if !(FASTOR_NO_ALIAS)
         if (_does_alias) {
             _does_alias = false;
+            FASTOR_VERIF_ROUTE("view.alias_copy.tensor_fixed_views_1d");
             // Evaluate this into a temporary
             auto tmp_this_tensor = get_tensor();
             auto tmp = TensorFixedViewExpr1D<Tensor<T,N>,fseq<F0,L0,S0>,1>(tmp_this_tensor);
@@ -394,6 +399,7 @@ public:
 #if !(FASTOR_NO_ALIAS)
         if (_does_alias) {
             _does_alias = false;
+            FASTOR_VERIF_ROUTE("view.alias_copy.tensor_fixed_views_1d");
             // Evaluate this into a temporary
             auto tmp_this_tensor = get_tensor();
             auto tmp = TensorFixedViewExpr1D<Tensor<T,N>,fseq<F0,L0,S0>,1>(tmp_this_tensor);
